@@ -282,6 +282,36 @@ def stage_apply_text(expr, sg, pr, alias=0):
         return m("add", *[vtext(v) for v in sg[1]])
     if k == "setRemove":
         return m("remove", *[vtext(v) for v in sg[1]])
+    if k == "groupByAgg":
+        agg = pr.wrap(["$.len()", "$.sum()", "$.first()"][sg[3]])
+        return m("groupBy", lt(sg[1], pr), "aggregator => " + agg) if sg[2] is None else m("groupBy", lt(sg[1], pr), lt(sg[2], pr), agg)
+    if k == "attr":
+        return expr + ".a"
+    if k == "unpackNamed":
+        names = ["v%d" % (j + 1) for j in range(sg[1])]
+        return "(%s.unpack(%s) -> [%s])" % (expr, ", ".join(names), ", ".join("$" + x for x in names))
+    if k == "unpackIdx":
+        return "(%s.unpack() -> [%s])" % (expr, ", ".join("$%d" % j for j in sg[1]))
+    if k == "with":
+        return "(with(%s) -> $1)" % expr
+    if k == "zipLongest":
+        args = [vtext(l) for l in sg[1]] + ([] if sg[2] is NOSEED else ["default => " + vtext(sg[2])])
+        return m("zipLongest", *args)
+    if k == "listOf":
+        return "list(%s)" % ", ".join([expr] + [vtext(v) for v in sg[1]])
+    if k == "mergeWithX":
+        args = [dict_text(sg[1])]
+        if sg[2] is not None:
+            args.append("listMerger => " + l2t(sg[2], pr))
+        if sg[3] is not None:
+            args.append("itemMerger => " + l2t(sg[3], pr))
+        if sg[4] is not None:
+            args.append("maxLevels => %d" % sg[4])
+        return m("mergeWith", *args)
+    if k == "dictSetMany":
+        return m("set", dict_text(sg[1]))
+    if k == "dictSetInline":
+        return m("set", *["%s => %s" % (vtext(a), vtext(b)) for a, b in sg[1]])
     if k == "flatten":
         return m("flatten")
     if k == "defaultIfEmpty":
@@ -390,6 +420,25 @@ def stage_gal(sg):
         return A("SSetAdd", gvals(sg[1]))
     if k == "setRemove":
         return A("SSetRemove", gvals(sg[1]))
+    if k == "groupByAgg":
+        return A("SGroupByAgg", lam_gal(sg[1]), ol(sg[2]), gal.nat(sg[3]))
+    if k == "attr":
+        return "SProject"
+    if k == "unpackNamed":
+        return A("SUnpackNamed", gal.nat(sg[1]))
+    if k == "unpackIdx":
+        return A("SUnpackIdx", gal.natlist(sg[1]))
+    if k == "with":
+        return "SWith"
+    if k == "zipLongest":
+        return A("SZipLongest", gal.lst(gvals(l) for l in sg[1]), ov(sg[2]))
+    if k == "listOf":
+        return A("SListOf", gvals(sg[1]))
+    if k == "mergeWithX":
+        o2 = lambda l: "None" if l is None else "(Some %s)" % L2_GAL[l[0]]
+        return A("SMergeWithX", gkvs(sg[1]), o2(sg[2]), o2(sg[3]), gal.z(0 if sg[4] is None else sg[4]))
+    if k in ("dictSetMany", "dictSetInline"):
+        return A("SDictPlus", gkvs(sg[1]))
     if k in ("flatten", "isList", "isDict", "isSet", "isIterable"):
         return "S" + k[0].upper() + k[1:]
     if k == "defaultIfEmpty":
@@ -427,15 +476,17 @@ STAGE_NAMES = {
     "dictGet": ["get"], "containsKey": ["containsKey"], "containsValue": ["containsValue"],
     "union": ["union"], "intersect": ["intersect"], "difference": ["difference", "#operator_-"],
     "symmetricDifference": ["symmetricDifference"], "setAdd": ["add"], "setRemove": ["remove"],
+    "groupByAgg": ["groupBy"], "attr": ["#operator_."], "unpackNamed": [], "unpackIdx": [], "with": [],
+    "zipLongest": ["zipLongest"], "listOf": ["list"], "mergeWithX": ["mergeWith"], "dictSetMany": ["set"], "dictSetInline": ["set"],
     "flatten": ["flatten"], "defaultIfEmpty": ["defaultIfEmpty"], "times": ["#operator_*"], "isList": ["isList"],
     "isDict": ["isDict"], "isSet": ["isSet"], "isIterable": ["isIterable"], "in": ["#operator_in"],
     "setCmp": ["#operator_<", "#operator_<=", "#operator_>", "#operator_>="], "index": ["#indexer"], "indexDefault": ["#indexer"],
 }
-SOURCE_NAMES = ["#list", "#map", "set", "range", "repeat", "sequence"]
+SOURCE_NAMES = ["#list", "#map", "set", "range", "repeat", "sequence", "generate", "generateMany"]
 
 
 # names of the two modules known not to be modelled (anything else that is registered and not modelled is NEW)
-KNOWN_UNMODELLED = {"#operator_.", "generate", "generateMany", "list", "zipLongest"}
+KNOWN_UNMODELLED = set()
 
 
 def registered_names():
@@ -491,6 +542,25 @@ def source_setup(src, literal):
         return (dict_text(src[1]), None) if literal or not _plain_hashable([a for a, _ in src[1]]) else ("$", _mkdict(src[1]))
     if k == "range":
         return "range(%d, %d, %d)" % (src[1], src[2], src[3]), None
+    if k == "recs":
+        recs = [{"a": x, "b": 0} for x in src[2]]
+        return "$", (recs if src[1] == "tuple" else iter(recs))
+    if k == "generate":
+        args = [vtext(src[1]), lam_body(src[2]), lam_body(src[3])]
+        if src[4] is not None:
+            args.append(lam_body(src[4]))
+        if src[5]:
+            args.append("decycle => true")
+        return "generate(%s)" % ", ".join(args), None
+    if k == "generateMany":
+        args = [str(src[1]), "[$ * 2, $ * 2 + 1].where($ < %d)" % src[2]]
+        if src[3] is not None:
+            args.append(lam_body(src[3]))
+        if src[4]:
+            args.append("decycle => true")
+        if src[5]:
+            args.append("depthFirst => true")
+        return "generateMany(%s)" % ", ".join(args), None
     if k == "repeat":
         return "%s.repeat(%d)" % ("(%s)" % vtext(src[1]) if isinstance(src[1], int) and src[1] < 0 else vtext(src[1]), src[2]), None
     raise ValueError(src)
@@ -527,6 +597,12 @@ def source_gal(src):
         return gal.app("SrcDictOf", gkvs(src[1]))
     if k == "range":
         return gal.app("SrcRange", gal.z(src[1]), gal.z(src[2]), gal.z(src[3]))
+    if k == "recs":
+        return gal.app("SrcTuple" if src[1] == "tuple" else "SrcIter", gvals(src[2]))
+    if k == "generateMany":
+        return gal.app("SrcGenerateMany", gal.z(src[1]), gal.z(src[2]), gopt(src[3], lam_gal), gal.boolean(src[4]), gal.boolean(src[5]))
+    if k == "generate":
+        return gal.app("SrcGenerate", gval(src[1]), lam_gal(src[2]), lam_gal(src[3]), gopt(src[4], lam_gal), gal.boolean(src[5]))
     if k == "repeat":
         return gal.app("SrcRepeat", gval(src[1]), gal.z(src[2]))
     raise ValueError(src)
@@ -738,14 +814,14 @@ def gen_stage(rng, kind, shape, n, allow_terminal=True, streaming_only=False, ce
         ops += ["join", "plus"]
     if not streaming_only:
         ops += ["reverse", "orderBy", "groupBy", "join", "splitAt", "splitWhere", "sliceWhere", "toList", "plus",
-                "orderBy", "groupBy", "toSet", "flatten", "defaultIfEmpty", "times"]
+                "orderBy", "groupBy", "toSet", "flatten", "defaultIfEmpty", "times", "groupByAgg", "with", "zipLongest", "listOf"]
         ops += ["thenBy"]
         if kind == "ord":
             ops += ["thenBy"] * 6
         if allow_terminal:
             ops += ["aggregate", "sum", "min", "max", "first", "last", "single", "any", "all", "indexOf",
                     "lastIndexOf", "indexWhere", "lastIndexWhere", "len", "count", "contains", "toDict",
-                    "dictFromItems", "in", "index", "isKind"]
+                    "dictFromItems", "in", "index", "isKind", "unpackNamed", "unpackIdx"]
     k = rng.choice(ops)
     it = "iter"
     if k == "where":
@@ -830,6 +906,23 @@ def gen_stage(rng, kind, shape, n, allow_terminal=True, streaming_only=False, ce
         return ("splitAt", gen_pos(rng, n)), "seq", "other", 2
     if k in ("splitWhere", "sliceWhere"):
         return (k, gen_lam(rng, shape, "pred")), it, "other", n
+    if k == "groupByAgg":
+        agg = rng.choice([0, 0, 1, 2]) if shape == "int" else 0
+        vl = rng.choice([None, ("id",), ("add", 1)]) if shape == "int" else None
+        return ("groupByAgg", gen_lam(rng, shape, "any"), vl, agg), it, "other", n
+    if k == "with":
+        return ("with",), kind, shape, n
+    if k == "zipLongest":
+        ls = tuple(tuple(gen_values(rng, shape, rng.randrange(0, n + 3))) for _ in range(rng.choice([0, 1, 1, 2])))
+        return ("zipLongest", ls, rng.choice([NOSEED, NOSEED, 0, None])), it, "other", n + 2
+    if k == "listOf":
+        if kind not in ("seq", "iter"):
+            return ("toList",), "seq", shape, n
+        return ("listOf", tuple(gen_values(rng, shape, rng.randrange(0, 3)))), "seq", ("other" if kind == "seq" else shape), n + 2
+    if k == "unpackNamed":
+        return ("unpackNamed", rng.choice([1, 2, 2, 3, max(1, min(n, 4)), max(1, min(n, 4))])), "scalar", "other", 0
+    if k == "unpackIdx":
+        return ("unpackIdx", tuple(rng.choice([2, 3, 4]) for _ in range(rng.randrange(1, 3)))), "scalar", "other", 0
     if k == "flatten":
         return ("flatten",), it, ("int" if shape in ("int", "pairint") else shape if shape == "intnull" else "other"), 2 * n
     if k == "defaultIfEmpty":
@@ -896,7 +989,10 @@ def gen_dict(rng, n):
 
 
 def gen_dict_stage(rng):
-    k = rng.choice(["dictSet", "dictDelete", "dictDeleteAll", "dictPlus", "mergeWith", "delete"])
+    k = rng.choice(["dictSet", "dictDelete", "dictDeleteAll", "dictPlus", "mergeWith", "delete", "dictSetMany", "dictSetInline"])
+    if k in ("dictSetMany", "dictSetInline"):
+        d = tuple((a, b) for a, b in gen_dict(rng, rng.randrange(1, 4)))
+        return (k, d)
     if k == "dictSet":
         return ("dictSet", rng.choice([None] + INTS[:8]), gen_value(rng, "other"))
     if k in ("dictDelete", "dictDeleteAll"):
@@ -920,14 +1016,41 @@ def gen_pipeline(rng, maxlen=4):
     elif r < 0.7:
         a, b = rng.randrange(-3, 5), rng.randrange(-3, 9)
         src, kind, shape, n = ("range", a, b, rng.choice([1, 1, 2, -1, -2, 3])), "iter", "int", 5
-    elif r < 0.73:
+    elif r < 0.715:
         src, kind, shape, n = ("repeat", rng.choice([None, 1, -2, (1, 2)]), rng.randrange(0, 5)), "iter", "other", 4
+    elif r < 0.722:
+        sel = rng.choice([None, None, ("add", 10), ("pair",)])
+        src = ("generateMany", rng.choice([1, 1, 2, 3, 0, -1]), rng.randrange(0, 14), sel, rng.random() < 0.4, rng.random() < 0.5)
+        if src[1] <= 0 and not src[4]:
+            src = src[:4] + (True,) + src[5:]        # 0 -> [0, 1]: only terminates with decycle
+        kind, shape, n = "iter", ("int" if sel != ("pair",) else "pairint"), 6
+    elif r < 0.73:
+        d = rng.choice([1, 2, 3])
+        sel = rng.choice([None, None, ("mul", 2), ("pair",)])
+        decy = rng.random() < 0.3
+        prod = ("add", d) if not decy else rng.choice([("add", d), ("mod", 3), ("mul", 1)])
+        src = ("generate", rng.randrange(-2, 3), ("lt", rng.randrange(0, 9)), prod, sel, decy)
+        kind, shape, n = "iter", ("int" if sel in (None, ("mul", 2)) else "pairint"), 5
     elif r < 0.86:
         shape = rng.choice(["int", "int", "intnull"])
         vals = tuple(gen_values(rng, shape, rng.randrange(0, 7)))
         src, kind, n = ("set", vals), "set", len(vals)
     else:
         src, kind, shape, n = ("dict", gen_dict(rng, rng.randrange(0, 6))), "dict", "other", 4
+    if src[0] in ("tuple", "iter") and shape == "int" and rng.random() < 0.06:
+        src = ("recs", src[0], src[1])
+        stages.append(("attr",))
+        kind = "iter"
+    if src[0] == "dict" and rng.random() < 0.25:
+        # deep-merge options, directly on a dict whose value shapes are known
+        d2 = []
+        for a, b in src[1][:3]:
+            if rng.random() < 0.7:
+                d2.append((a, tuple(gen_values(rng, "int", rng.randrange(0, 3))) if isinstance(b, tuple) else rng.choice(INTS)))
+        d2 += [(a, b) for a, b in gen_dict(rng, rng.randrange(0, 2))]
+        lm = rng.choice([None, None, ("add2",), ("snd",), ("fst",)])
+        im = rng.choice([None, None, ("fst",), ("snd",), ("pair2",)])
+        stages.append(("mergeWithX", tuple(d2), lm, im, rng.choice([None, None, 0, 1, 2])))
     budget = rng.randrange(1, maxlen + 1)
     while budget > 0:
         budget -= 1
